@@ -25,6 +25,7 @@ import (
 	"strings"
 
 	"verif/c05"
+	"verif/c19"
 	"verif/core"
 )
 
@@ -96,13 +97,19 @@ func entryName(in *c05.Input) string {
 
 func leakFeature(in *c05.Input, r *c05.Result) string {
 	which := "unattributed-by-hooks"
-	if len(r.Leaks) > 0 {
-		l := r.Leaks[0]
-		sc := "entry-scanner"
-		if l.Scanner > 1 {
-			sc = "nested-quoted-expr-scanner"
+	switch {
+	case len(r.Leaks) > 0:
+		which = "entry-scanner-still-sending"
+		if r.Leaks[0].Scanner > 1 {
+			which = "nested-quoted-expr-scanner-still-sending"
 		}
-		which = sc + "-still-sending"
+		if in.Entry == "file" && r.Lexers > 1 && r.Leaks[0].Scanner == 1 && len(r.Leaks) == 1 {
+			// the scanner the entry point started FIRST is abandoned while a later one was used
+			which = "first-scanner-abandoned"
+		}
+	case r.ProfWhere != "" && !strings.Contains(r.ProfWhere, "(*lexer)"):
+		// a goroutine of the library that is not a (hooked) scanner
+		which = "goroutine-started-in-" + r.ProfWhere
 	}
 	return "leak:" + entryName(in) + "/" + exitPath(r) + "/" + which
 }
@@ -144,6 +151,11 @@ func Run(ctx *core.Ctx) {
 	own := ownInputs(ctx)
 	counts["c18"] = len(own)
 	inputs = append(own, inputs...)
+	// the generated files of C19's parse half (valid and with every fault at
+	// every line, all line ends / file ends)
+	c19in := c19.ParseCaseInputs(ctx)
+	counts["c19-files"] = len(c19in)
+	inputs = append(inputs, c19in...)
 	c05.MarkTraces(inputs, ctx.Pick(40, 25))
 	for i := range own {
 		inputs[i].Trace = true
@@ -225,7 +237,7 @@ func judge(ctx *core.Ctx, inputs []c05.Input, results []c05.Result, pool *c05.Po
 		}
 		remaining += s.Remaining
 	}
-	returned, notReturned, flagged, profLeaks := 0, 0, 0, 0
+	returned, notReturned, flagged, profLeaks, transients := 0, 0, 0, 0, 0
 	seen := map[string]struct{}{}
 	flaggedInSeq := map[int]int{}
 	byFeature := map[string]int{}
@@ -270,13 +282,15 @@ func judge(ctx *core.Ctx, inputs []c05.Input, results []c05.Result, pool *c05.Po
 			f := leakFeature(in, r)
 			byFeature[f]++
 			ctx.Violation(core.Sig{Family: "goroutine-leak", Feature: f},
-				fmt.Sprintf("%s(%q) returned (%s) and left %d scanner goroutine(s) behind: hooks %+v; goroutine profile +%d after the parse",
-					entryName(in), clip(string(in.Text), 80), exitPath(r), max(r.ProfLeak, len(r.Leaks)), r.Leaks, r.ProfLeak),
+				fmt.Sprintf("%s(%q) returned (%s) and left %d goroutine(s) of the library behind: hooks %+v; goroutine profile +%d after the parse (%s)",
+					entryName(in), clip(string(in.Text), 80), exitPath(r), max(r.ProfLeak, len(r.Leaks)), r.Leaks, r.ProfLeak, r.ProfWhere),
 				mkReplay(in, r, seqInfo))
 		case hook && !prof:
 			ctx.ToolError("hooks flag a scanner that can still block at return of %s(%q) but the goroutine profile shows none: inconsistent observations", entryName(in), clip(string(in.Text), 60))
 		case prof && !seqConfirms:
-			ctx.ToolError("the goroutine profile showed a scanner goroutine after %s(%q) but the sequence returned to baseline within 2 s", entryName(in), clip(string(in.Text), 60))
+			// a goroutine that outlived its call by more than the 100 ms settle time but
+			// was gone at the end of the sequence: late, not leaked; not judged
+			transients++
 		}
 	}
 	// sequences that did not return to baseline without any parse being blamed
@@ -300,6 +314,7 @@ func judge(ctx *core.Ctx, inputs []c05.Input, results []c05.Result, pool *c05.Po
 	ctx.Extra["flagged_by_hooks"] = flagged
 	ctx.Extra["flagged_by_profile"] = profLeaks
 	ctx.Extra["leaks_per_signature"] = byFeature
+	ctx.Extra["late_goroutines_gone_at_sequence_end(not judged)"] = transients
 	ctx.Extra["sequences"] = map[string]int{"total": len(pool.Sequences), "without_baseline_poll(worker exited)": unchecked, "scanner_goroutines_left": remaining}
 	ctx.Extra["worker_restarts"] = pool.Restarts
 	if pool.Lost > 0 {
